@@ -53,6 +53,18 @@ def run(ctx, R, tier):
     ok = rcfg.all_paths_pass([rcfg.entry], lambda n: n in retn, targets=[rcfg.exit])
     R.check(ok, "C17-R1", "receive_data|no-fall-through", "the function ends only by returning a checked buffer or by raising (it cannot run off its end and return None)", rx.loc(),
             "some path leaves receive_data without a return statement: the caller gets None instead of the requested bytes")
+    # "not enough data" is decided by comparing lengths with the requested size, never by an empty chunk alone (a read of 0 bytes is complete when nothing arrived)
+    def incomplete(atom, pol):
+        if isinstance(atom, ast.Compare) and len(atom.ops) == 1 and isinstance(atom.left, ast.Call) and unparse(atom.left.func) == "len" and unparse(atom.comparators[0]) == sizep:
+            return (isinstance(atom.ops[0], ast.Eq) and pol is False) or (isinstance(atom.ops[0], ast.NotEq) and pol is True) or (isinstance(atom.ops[0], ast.Lt) and pol is True)
+        return False
+    short_raises = [n for n in rcfg.nodes if n.kind == "stmt" and isinstance(n.ast, ast.Raise) and n.ast.exc is not None
+                    and not any(part == "handler" for t, part in enclosing_trys(n.ast, rx.node))]
+    ok = bool(short_raises) and all(rcfg.guarded(n, lambda e: edge_has_fact(e, incomplete)) for n in short_raises)
+    R.check(ok, "C17-R1", "receive_data|short-read-decided-by-length", "outside the error handlers an error is raised only after a length comparison with the requested size found the data incomplete",
+            rx.loc(short_raises[0].ast) if short_raises else rx.loc(),
+            "an error is raised for a chunk without comparing lengths with the requested size (e.g. on any empty chunk): a legitimate read of 0 bytes - a message with an empty payload - fails "
+            "as if the peer had closed")
     recvs = [c for c, _ in ctx.cg.calls_of(rx) if isinstance(c.func, ast.Attribute) and c.func.attr == "recv"]
     loop_recvs = [c for c in recvs if any(isinstance(l, ast.While) and isinstance(l.test, ast.Compare) for l in enclosing_loops(c, rx.node))]
     if len(loop_recvs) != 1:
@@ -281,6 +293,15 @@ def run(ctx, R, tier):
                 R.check(ok, "C17-R2", "%s|partialData-read-only-from-ConnectionClosedError" % g.qualname.split(".", 1)[1], "the handler that reads .partialData catches only ConnectionClosedError",
                         g.loc(h), "the handler catches %s but reads .partialData, which only ConnectionClosedError carries: a timeout surfaces as AttributeError" % classes)
     R.note("handlers reading .partialData: %d" % n_pd)
+    # ... and who re-stores it (outside receive_data) derives the new value from that same attribute of the same exception
+    for g in p.functions.values():
+        if g.qualname == rx.qualname:
+            continue
+        for st, t, k in stores_in(g.node):
+            if k == "assign" and isinstance(t, ast.Attribute) and t.attr == "partialData":
+                src = [x for x in ast.walk(st.value) if isinstance(x, ast.Attribute) and x.attr == "partialData" and unparse(x.value) == unparse(t.value)]
+                R.check(bool(src), "C17-R2", "%s|partialData-rewritten-from-itself" % g.qualname.split(".", 1)[1], "a rewrite of .partialData is computed from the .partialData it replaces",
+                        g.loc(st), "`%s` replaces the bytes received so far by something that does not come from them" % unparse(st, 70))
 
 
 def _raised_class(ctx, f, cfg, r):
